@@ -12,6 +12,12 @@
 #include "shim.hh"
 
 int main() {
+  // "throws only the documented parse_error or out_of_range": a type derived from one of them is one of them
+  shim::exception_namer() = [](const std::exception& e) -> std::string {
+    if (dynamic_cast<const phosg::JSON::parse_error*>(&e)) return typeid(phosg::JSON::parse_error).name();
+    if (dynamic_cast<const std::out_of_range*>(&e)) return typeid(std::out_of_range).name();
+    return typeid(e).name();
+  };
   return shim::serve([](const shim::Blobs& req) -> shim::Blobs {
     const std::string& op = req.at(0);
     if (op == "parse") {
